@@ -639,7 +639,12 @@ fn build_for(lhs: &AstNode, rhs: &AstNode) -> Result<Evaluator> {
     for evaluator in &evaluators {
       match evaluator {
         IterationContextEvaluator::Single(name, evaluator_single) => {
-          expression_evaluator.add_single(name.clone(), evaluator_single(scope));
+          let value = evaluator_single(scope);
+          if matches!(&value, Value::List(values) if values.as_vec().is_empty()) {
+            // the cartesian product of the domains is empty when any domain is empty
+            return Value::List(Values::default());
+          }
+          expression_evaluator.add_single(name.clone(), value);
         }
         IterationContextEvaluator::Range(name, evaluator_range_start, evaluator_range_end) => {
           expression_evaluator.add_range(name.clone(), evaluator_range_start(scope), evaluator_range_end(scope));
@@ -766,7 +771,12 @@ fn build_every(lhs: &AstNode, rhs: &AstNode) -> Result<Evaluator> {
     Ok(Box::new(move |scope: &Scope| {
       let mut expression_evaluator = EveryExpressionEvaluator::new();
       for (name, expr_evaluator) in &expr_evaluators {
-        expression_evaluator.add(name.clone(), expr_evaluator(scope));
+        let value = expr_evaluator(scope);
+        if matches!(&value, Value::List(values) if values.as_vec().is_empty()) {
+          // the cartesian product of the domains is empty when any domain is empty
+          return Value::Boolean(true);
+        }
+        expression_evaluator.add(name.clone(), value);
       }
       expression_evaluator.evaluate(scope, &satisfies_evaluator)
     }))
@@ -1536,7 +1546,12 @@ fn build_some(lhs: &AstNode, rhs: &AstNode) -> Result<Evaluator> {
     Ok(Box::new(move |scope: &Scope| {
       let mut expression_evaluator = SomeExpressionEvaluator::new();
       for (name, expr_evaluator) in &expr_evaluators {
-        expression_evaluator.add(name.clone(), expr_evaluator(scope));
+        let value = expr_evaluator(scope);
+        if matches!(&value, Value::List(values) if values.as_vec().is_empty()) {
+          // the cartesian product of the domains is empty when any domain is empty
+          return Value::Boolean(false);
+        }
+        expression_evaluator.add(name.clone(), value);
       }
       expression_evaluator.evaluate(scope, &satisfies_evaluator)
     }))
